@@ -32,7 +32,13 @@ TRUSTED_BASE = [
     "value (attribute assignments to the validated sliver / Labels / Tags / JSON fields and to _name, setattr/__setattr__/__dict__ writes, "
     ".tags.append, validated graph-property writes, add_*_sliver) with the guard idiom that dominates each (theorem every_store_guarded); "
     "name-resolved call graph with the set_property/set_properties selector and the receiver class as context (theorems "
-    "every_entry_point_validated, every_composed_name_validated); the discovered entry points must equal harness/lib_c16ep.PROBES + EXEMPT",
+    "every_entry_point_validated, every_composed_name_validated); the discovered entry points must equal harness/lib_c16ep.PROBES + EXEMPT; "
+    "when the guard idiom of Labels._set_fields / Tags.__init__ is not recognised statically (validation moved into helpers, comprehension / "
+    "generator feeding extend, scalar normalised to a one-element list) the row keeps its guard label only if a behavioural probe of the RUNNING "
+    "class confirms it (accept == member per the class tables for 31 / 13 candidates x scalar, first / middle / last list position, tuple and "
+    "mixed forms; stored == handed over; nothing stored on rejection; Tags keeps no reference to the caller's list) - listed in the extractor's "
+    "report as guards_confirmed_behaviourally; gen/validators.py likewise reads the anchoring (fullmatch vs match ^..$) off the running class "
+    "when the re call is not in _set_fields itself",
     "gen/entrypoints.py: derived-name idioms of generate_component / add_facility / add_switch and the catalogue's interface names (table `derived`), "
     "statement skeleton of Labels._set_fields (set_fields_skeleton)",
     "gen/validators.py: regexes are parsed by CPython's own re._parser and translated opcode by opcode (subset check); anchoring read "
@@ -49,10 +55,14 @@ TRUSTED_BASE = [
 ENTRY_POINTS_NOTE = ("75 entry points discovered (99 entry-point x parameter rows); 74 probed directly (harness/lib_c16ep.PROBES: variants per sliver class / "
                      "element kind / component model), 1 exempt (abstract ModelElement.__init__). After every probe the whole scratch topology is swept: "
                      "every stored name / labels field / tag / boot script / JSON blob of every element - also the ones the library named itself - is a "
-                     "member of its domain and every element decodes.")
+                     "member of its domain and every element decodes. Alias family: every entry point x every container domain (tag list, list-valued "
+                     "label field, JSON blob from a Python object) is also called with a value built from a mutable object the caller keeps; after the "
+                     "acceptance the caller puts a NON-MEMBER into its object (append, item / slice assignment, insert, extend, +=) and the stored value "
+                     "is read, encoded and decoded again (signatures C16:alias.<constructor that kept the argument>.<tags|labels|json>:...).")
 ASSUMPTIONS = [
     "values are str / list / None / other objects (ints, bytes, containers, str subclasses, objects that are not of the parameter's class); attribute "
-    "assignment on a Labels / Tags / JSONData / sliver object by the caller (bypassing every setter) is outside the quantifier",
+    "assignment on a Labels / Tags / JSONData / sliver object by the caller (bypassing every setter) is outside the quantifier; mutating the "
+    "caller's OWN argument object after the call is inside it (alias family; Labels' list fields are by-reference today: 6 known findings)",
     "digit strings are shorter than sys.get_int_max_str_digits() (4300)",
     "the documented domain of a field is L(its regex) ∩ its range (Unicode decimal digits count as digits, as in [\\d] and int()); for bdf the separator before the function is a literal dot; for numa an integer literal -?digits in -1..7; "
     "for the free-form label fields: a str or a list of str",
